@@ -18,7 +18,7 @@ from harness.octa import cz, cv, coct, clist
 
 # ====================================================================== exact cases
 def run_real(srcs, observers, case, field="B"):
-    f = magpy.getB if field == "B" else magpy.getH
+    f = field_fn(field)
     B = f(srcs, observers, squeeze=False, sumup=case["sumup"], pixel_agg=level2.AGG[case["agg"]])
     sh = B.shape
     return octa.ints(B.reshape(sh[0], sh[1], sh[2], -1, 3))
@@ -271,6 +271,31 @@ def c05_oracle(case, field="B"):
 
 
 # ====================================================================== real sources (float search)
+def field_fn(field):
+    return {"B": magpy.getB, "H": magpy.getH, "J": magpy.getJ, "M": magpy.getM}[field]
+
+
+def call_field(entries, observers, field, how="top", sumup=False, pixel_agg=None):
+    """the same computation through different public entry points (all with squeeze=False):
+    top    magpy.getX(sources, observers);  method  the getX method of the single source / collection entry,
+    or of the single sensor (sources as arguments) -- falls back to `top` where not applicable"""
+    name = "get" + field
+    if how == "method" and not sumup:
+        mixed = isinstance(entries[0], magpy.Collection) and any(
+            isinstance(o, magpy.Sensor) for o in entries[0].children_all)      # documented: rejected by collection.getX
+        if len(entries) == 1 and not mixed:
+            obs = observers if isinstance(observers, list) else [observers]
+            return getattr(entries[0], name)(*obs, squeeze=False, pixel_agg=pixel_agg)
+        if isinstance(observers, list) and len(observers) == 1 and isinstance(observers[0], magpy.Sensor):
+            return getattr(observers[0], name)(*entries, squeeze=False, pixel_agg=pixel_agg)
+    return field_fn(field)(entries, observers, squeeze=False, sumup=sumup, pixel_agg=pixel_agg)
+
+
+def pick_field(rng):
+    """mostly B and H (the property names them); J and M go through the same data flow"""
+    return rng.choice(["B", "H", "B", "H", "B", "H", "J", "M"])
+
+
 def rvec(rng, lo, hi):
     return [rng.uniform(lo, hi) for _ in range(3)]
 
@@ -286,11 +311,36 @@ def rnd_rot(rng, n=None):
             return R.from_rotvec(axis * 10.0 ** rng.uniform(-7, -2)).as_quat().tolist()
         if x < 0.17:
             return R.from_rotvec(axis * math.pi).as_quat().tolist()
+        if x < 0.25:                      # exact quarter / half turns about a coordinate axis, and the identity
+            return R.from_euler(rng.choice("xyz"), rng.choice([0, 90, -90, 180]), degrees=True).as_quat().tolist()
         q = [rng.gauss(0, 1) for _ in range(4)]
         return q
     if n is None:
         return R.from_quat(one())
     return R.from_quat([one() for _ in range(n)])
+
+
+def exc_vec(rng):
+    """polarization / moment: generic, exactly along a coordinate axis, with zero components, or zero"""
+    x = rng.random()
+    if x < 0.15:
+        v = [0.0, 0.0, 0.0]
+        v[rng.randrange(3)] = rng.choice([-1.0, 1.0]) * rng.choice([1.0, rng.uniform(0.1, 2)])
+        return v
+    if x < 0.25:
+        v = rvec(rng, -1, 1)
+        v[rng.randrange(3)] = 0.0
+        return v
+    if x < 0.28:
+        return [0.0, 0.0, 0.0]
+    return rvec(rng, -1, 1)
+
+
+def exc_cur(rng):
+    x = rng.random()
+    if x < 0.06:
+        return 0.0
+    return rng.choice([-1, 1]) * rng.uniform(0.05, 2)
 
 
 MESH_V = [(0.0, 0.0, 0.0), (1.1, 0.0, 0.2), (0.1, 0.9, 0.0), (0.2, 0.3, 1.2), (0.9, 0.8, 0.7)]
@@ -301,32 +351,39 @@ def real_source(rng, kind=None):
     kinds = ["Cuboid", "Cylinder", "CylinderSegment", "Sphere", "Tetrahedron", "Triangle", "TriangularMesh",
              "Circle", "Polyline", "Dipole"]
     kind = kind or rng.choice(kinds)
-    pol = rvec(rng, -1, 1)
+    pol = exc_vec(rng)
+    off = np.array(rvec(rng, -2, 2)) if rng.random() < 0.3 else np.zeros(3)    # body off its local origin
     if kind == "Cuboid":
-        s = magpy.magnet.Cuboid(polarization=pol, dimension=[rng.uniform(0.3, 1.5) for _ in range(3)])
+        dim = [rng.uniform(0.3, 1.5) for _ in range(3)]
+        if rng.random() < 0.3:            # strongly non-cubic, every axis can be the long one
+            dim[rng.randrange(3)] *= rng.uniform(4, 10)
+        s = magpy.magnet.Cuboid(polarization=pol, dimension=dim)
     elif kind == "Cylinder":
         s = magpy.magnet.Cylinder(polarization=pol, dimension=(rng.uniform(0.4, 1.5), rng.uniform(0.3, 1.5)))
     elif kind == "CylinderSegment":
-        r1 = rng.uniform(0.1, 0.6)
-        p1 = rng.uniform(-170, 100)
-        s = magpy.magnet.CylinderSegment(polarization=pol, dimension=(r1, r1 + rng.uniform(0.2, 0.8), rng.uniform(0.3, 1.2),
-                                                                        p1, p1 + rng.uniform(20, 200)))
+        r1 = rng.choice([0.0, rng.uniform(0.1, 0.6), rng.uniform(0.1, 0.6)])          # solid or hollow
+        dr = rng.choice([0.02, rng.uniform(0.2, 0.8), rng.uniform(0.2, 0.8)])         # thin shell or thick
+        h = rng.choice([0.03, rng.uniform(0.3, 1.2), rng.uniform(0.3, 1.2)])
+        p1 = rng.choice([rng.uniform(-170, 100), rng.uniform(-355, -185), rng.uniform(-170, 100)])
+        span = rng.choice([rng.uniform(20, 200), rng.uniform(20, 200), rng.uniform(340, 359.5), 360.0])
+        span = min(span, 360.0 - p1) if p1 + span > 360.0 else span
+        s = magpy.magnet.CylinderSegment(polarization=pol, dimension=(r1, r1 + dr, h, p1, p1 + span))
     elif kind == "Sphere":
         s = magpy.magnet.Sphere(polarization=pol, diameter=rng.uniform(0.3, 1.5))
     elif kind == "Tetrahedron":
-        s = magpy.magnet.Tetrahedron(polarization=pol, vertices=[rvec(rng, -0.8, 0.8) for _ in range(4)])
+        s = magpy.magnet.Tetrahedron(polarization=pol, vertices=(np.array([rvec(rng, -0.8, 0.8) for _ in range(4)]) + off).tolist())
     elif kind == "Triangle":
-        s = magpy.misc.Triangle(polarization=pol, vertices=[rvec(rng, -0.8, 0.8) for _ in range(3)])
+        s = magpy.misc.Triangle(polarization=pol, vertices=(np.array([rvec(rng, -0.8, 0.8) for _ in range(3)]) + off).tolist())
     elif kind == "TriangularMesh":
-        pts = np.array(MESH_V) * rng.uniform(0.5, 1.2) + np.array(rvec(rng, -0.2, 0.2))
+        pts = np.array(MESH_V) * rng.uniform(0.5, 1.2) + np.array(rvec(rng, -0.2, 0.2)) + off
         s = magpy.magnet.TriangularMesh.from_ConvexHull(polarization=pol, points=pts)
     elif kind == "Circle":
-        s = magpy.current.Circle(current=rng.uniform(-2, 2), diameter=rng.uniform(0.4, 1.6))
+        s = magpy.current.Circle(current=exc_cur(rng), diameter=rng.uniform(0.4, 1.6))
     elif kind == "Polyline":
-        s = magpy.current.Polyline(current=rng.uniform(-2, 2),
-                                   vertices=[rvec(rng, -0.8, 0.8) for _ in range(rng.randint(2, 5))])
+        s = magpy.current.Polyline(current=exc_cur(rng),
+                                   vertices=(np.array([rvec(rng, -0.8, 0.8) for _ in range(rng.randint(2, 5))]) + off).tolist())
     else:
-        s = magpy.misc.Dipole(moment=rvec(rng, -1, 1))
+        s = magpy.misc.Dipole(moment=exc_vec(rng))
     return s, kind
 
 
@@ -432,6 +489,21 @@ def dump_obj(o):
     return d
 
 
+def scale_dump(d, k):
+    """the same object description with every length multiplied by k (angles and excitations unchanged)"""
+    d = dict(d)
+    d["position"] = (np.array(d["position"], dtype=float) * k).tolist()
+    if "children" in d:
+        d["children"] = [scale_dump(c, k) for c in d["children"]]
+    if "dimension" in d:
+        dim = list(np.array(d["dimension"], dtype=float))
+        d["dimension"] = [x * k for x in dim[:3]] + dim[3:] if len(dim) == 5 else [x * k for x in dim]
+    for a in ("diameter", "vertices", "pixel"):
+        if a in d:
+            d[a] = (np.array(d[a], dtype=float) * k).tolist()
+    return d
+
+
 def load_obj(d):
     cls = d["class"]
     if cls == "Collection":
@@ -469,25 +541,27 @@ def rel_dev(a, b):
 PATTERNS = [np.array([1.0, -1.0, 1.0]), np.array([-1.0, 1.0, 1.0]), np.array([1.0, 1.0, -1.0]), np.array([-1.0, -1.0, -1.0])]
 
 
-def perturb(d, p):
-    """the same object description with poses changed at rounding level (1e-14 absolute, 1e-15 rad)"""
+def perturb(d, p, scale=1.0):
+    """the same object description with poses changed at rounding level (1e-14 of the length scale, 1e-15 rad)"""
     d = dict(d)
-    d["position"] = (np.array(d["position"], dtype=float) + 1e-14 * p).tolist()
+    d["position"] = (np.array(d["position"], dtype=float) + 1e-14 * scale * p).tolist()
     d["quat"] = (R.from_rotvec(1e-15 * p) * R.from_quat(np.array(d["quat"], dtype=float))).as_quat().tolist()
     if "children" in d:
-        d["children"] = [perturb(c, p) for c in d["children"]]
+        d["children"] = [perturb(c, p, scale) for c in d["children"]]
     return d
 
 
 def noise_floor(dentries, dobs, field):
     """how much the implementation's own output moves (relative to the field scale) when poses and
     observers change at rounding level: the conditioning of this particular evaluation"""
-    f = magpy.getB if field == "B" else magpy.getH
+    f = field_fn(field)
+
+    k = dobs.get("scale", 1.0)
 
     def ev(p):
-        entries = [load_obj(perturb(d, p)) for d in dentries]
+        entries = [load_obj(perturb(d, p, k)) for d in dentries]
         if dobs["kind"].startswith("array"):
-            return f(entries, np.array(dobs["points"], dtype=float) + 1e-14 * p, squeeze=False)
-        return f(entries, [load_obj(perturb(d, -p)) for d in dobs["sensors"]], squeeze=False)
+            return f(entries, np.array(dobs["points"], dtype=float) + 1e-14 * k * p, squeeze=False)
+        return f(entries, [load_obj(perturb(d, -p, k)) for d in dobs["sensors"]], squeeze=False)
     base = ev(np.zeros(3))
     return max(max(rel_dev(base[i], b[i]) for i in range(len(base))) for b in (ev(p) for p in PATTERNS))
